@@ -116,7 +116,8 @@ class Ctx(object):
                 continue
             seen_known.add((o.rule, o.construct))
             lines.append("KNOWN-FINDING: property=%s %s [%s %s]" % (self.prop, k.get("what", o.reason), o.rule, o.construct))
-        replay_dir = os.path.join(VERIF, "evidence", "replay")
+        scratch_run = bool(os.environ.get("VERIF_NO_EVIDENCE"))  # self-test harness: never touch the committed evidence
+        replay_dir = os.path.join(VERIF, "evidence", "replay") if not scratch_run else os.path.join(os.environ.get("TMPDIR", "/tmp"), "mpilot-verif-replay")
         for o, _ in new:
             os.makedirs(replay_dir, exist_ok=True)
             name = "%s_%s_%s.json" % (self.prop, o.rule.replace(".", "_"), abs(hash_str(o.construct)) % 10 ** 8)
@@ -129,10 +130,10 @@ class Ctx(object):
                     print("      path: %s" % (step,))
             lines.append("VIOLATION property=%s replay=%s" % (self.prop, rp))
         status = 0
-        if error is not None:
+        if new:
+            status = 1  # a violation established by a completed rule stands even if a later rule could not be decided
+        elif error is not None:
             status = 2
-        elif new:
-            status = 1
         distinct = {(o.rule, o.construct) for o in self.obs if o.nontrivial}
         samples = []
         by_rule = {}
@@ -180,9 +181,10 @@ class Ctx(object):
             "wall_s": round(wall, 3),
             "violations": len(new),
         }
-        os.makedirs(os.path.join(VERIF, "evidence"), exist_ok=True)
-        with open(os.path.join(VERIF, "evidence", "%s.json" % self.prop), "w") as f:
-            json.dump(ev, f, indent=1, default=str)
+        if not scratch_run:
+            os.makedirs(os.path.join(VERIF, "evidence"), exist_ok=True)
+            with open(os.path.join(VERIF, "evidence", "%s.json" % self.prop), "w") as f:
+                json.dump(ev, f, indent=1, default=str)
         print(
             "%s [%s]: %d obligation instance(s) over %d rule(s), %d discharged, %d known finding(s), %d new violation(s), %.2fs"
             % (self.prop, self.tier, len(self.obs), len(by_rule), cov["discharged"], len(seen_known), len(new), wall)
